@@ -205,8 +205,11 @@ func marshalOrderedValue(buf *bytes.Buffer, value any) error {
 
 func FileExists(filename string) bool {
 	info, err := os.Stat(filename)
-	if os.IsNotExist(err) {
-		return false
+	if err != nil {
+		// Only "does not exist" means absent. Any other failure (permission, I/O) is treated
+		// as present so that a key file that may well be there is never regenerated over;
+		// info is nil in that case and must not be dereferenced.
+		return !os.IsNotExist(err)
 	}
 	return !info.IsDir() // Ensure it's a file, not a directory
 }
